@@ -102,3 +102,119 @@ End DistMat.
 
 Arguments dm_size {V}.
 Arguments dm_entries {V}.
+
+(* ---- storage level: the vocabulary of the whole-method translations of ChunkedDistanceMatrix
+   (harness/src_functions.py, entries C07_CDM_...) and the representation map to [dmat].  No proofs here.
+   A ChunkedDistanceMatrix object is the record of its six instance attributes; a 1-d numpy array is the list of its
+   items, the dense matrix the list of its rows.
+   Further error tags: 98 IndexError (PyRt), 12 "already calculated", 13 negative dimension (np.zeros),
+                       14 slice store of an array that cannot be broadcast. *)
+Record cdm (V : Type) := {
+  c_size : Z; c_chunk : Z; c_cur : Z;                        (* size, chunk_size, current_index *)
+  c_rows : list Z; c_cols : list Z; c_vals : list V }.       (* row_indices, col_indices, values *)
+Arguments c_size {V}. Arguments c_chunk {V}. Arguments c_cur {V}.
+Arguments c_rows {V}. Arguments c_cols {V}. Arguments c_vals {V}.
+
+Definition set_c_size {V} (o : cdm V) (x : Z) : cdm V :=
+  {| c_size := x; c_chunk := c_chunk o; c_cur := c_cur o; c_rows := c_rows o; c_cols := c_cols o; c_vals := c_vals o |}.
+Definition set_c_chunk {V} (o : cdm V) (x : Z) : cdm V :=
+  {| c_size := c_size o; c_chunk := x; c_cur := c_cur o; c_rows := c_rows o; c_cols := c_cols o; c_vals := c_vals o |}.
+Definition set_c_cur {V} (o : cdm V) (x : Z) : cdm V :=
+  {| c_size := c_size o; c_chunk := c_chunk o; c_cur := x; c_rows := c_rows o; c_cols := c_cols o; c_vals := c_vals o |}.
+Definition set_c_rows {V} (o : cdm V) (x : list Z) : cdm V :=
+  {| c_size := c_size o; c_chunk := c_chunk o; c_cur := c_cur o; c_rows := x; c_cols := c_cols o; c_vals := c_vals o |}.
+Definition set_c_cols {V} (o : cdm V) (x : list Z) : cdm V :=
+  {| c_size := c_size o; c_chunk := c_chunk o; c_cur := c_cur o; c_rows := c_rows o; c_cols := x; c_vals := c_vals o |}.
+Definition set_c_vals {V} (o : cdm V) (x : list V) : cdm V :=
+  {| c_size := c_size o; c_chunk := c_chunk o; c_cur := c_cur o; c_rows := c_rows o; c_cols := c_cols o; c_vals := x |}.
+(* the object __init__ receives: no attribute is set yet (every attribute is stored before it is read) *)
+Definition cdm_blank (V : Type) : cdm V :=
+  {| c_size := 0; c_chunk := 0; c_cur := 0; c_rows := []; c_cols := []; c_vals := [] |}.
+
+(* np.zeros(n, dtype=...) with an int n: n zeros; a negative n is a ValueError *)
+Definition np_zeros {A : Type} (z : A) (n : Z) : result (list A) :=
+  if n <? 0 then Err 13 else Ok (repeat z (Z.to_nat n)).
+(* np.zeros((n, m)) *)
+Definition np_zeros2 {A : Type} (z : A) (n m : Z) : result (list (list A)) :=
+  if (n <? 0) || (m <? 0) then Err 13 else Ok (repeat (repeat z (Z.to_nat m)) (Z.to_nat n)).
+(* a[:k] on a 1-d array: the first k items (all of them if k exceeds the length); a negative k counts from the end *)
+Definition np_prefix {A : Type} (a : list A) (k : Z) : list A :=
+  firstn (Z.to_nat (if k <? 0 then k + Z.of_nat (length a) else k)) a.
+(* a[:k] = v with v a 1-d array: v must have as many items as the slice, or exactly one item (broadcast) *)
+Definition np_store_prefix {A : Type} (a : list A) (k : Z) (v : list A) : result (list A) :=
+  let p := length (np_prefix a k) in
+  if Nat.eqb (length v) p then Ok (v ++ skipn p a)
+  else match v with [x] => Ok (repeat x p ++ skipn p a) | _ => Err 14 end.
+Definition cdm_store_rows {V} (o : cdm V) (k : Z) (v : list Z) : result (cdm V) :=
+  dor a <- np_store_prefix (c_rows o) k v; Ok (set_c_rows o a).
+Definition cdm_store_cols {V} (o : cdm V) (k : Z) (v : list Z) : result (cdm V) :=
+  dor a <- np_store_prefix (c_cols o) k v; Ok (set_c_cols o a).
+Definition cdm_store_vals {V} (o : cdm V) (k : Z) (v : list V) : result (cdm V) :=
+  dor a <- np_store_prefix (c_vals o) k v; Ok (set_c_vals o a).
+(* (a, b) in zip(r, c): some position holds a in r and b in c *)
+Definition pair_in_zip (a b : Z) (r c : list Z) : bool :=
+  existsb (fun p => (fst p =? a) && (snd p =? b)) (List.combine r c).
+
+(* the representation map: entry k of the model is (row_indices[k], col_indices[k], values[k]), k < current_index *)
+Definition dm_of_storage {V} (vzero : V) (st : cdm V) : dmat V :=
+  {| dm_size := c_size st;
+     dm_entries := map (fun k => (nth k (c_rows st) 0, nth k (c_cols st) 0, nth k (c_vals st) vzero))
+                       (seq 0 (Z.to_nat (c_cur st))) |}.
+(* what every constructed object satisfies (established by __init__, kept by add_value / combine / concat): three arrays
+   of one length, current_index within it, a non-negative chunk_size, and every slot from current_index on still zero *)
+Definition storage_ok {V} (vzero : V) (visz : V -> bool) (st : cdm V) : Prop :=
+  length (c_cols st) = length (c_rows st) /\ length (c_vals st) = length (c_rows st) /\
+  0 <= c_cur st <= Z.of_nat (length (c_rows st)) /\ 0 <= c_chunk st /\
+  forall k, (Z.to_nat (c_cur st) <= k)%nat ->
+    nth k (c_rows st) 0 = 0 /\ nth k (c_cols st) 0 = 0 /\ visz (nth k (c_vals st) vzero) = true.
+(* add_value finds a slot: a free one, or storage that grows *)
+Definition has_room {V} (st : cdm V) : Prop :=
+  c_cur st < Z.of_nat (length (c_vals st)) \/ 0 < c_chunk st.
+(* a source result against a model result: the same error, or a well-formed storage that represents the model value *)
+Definition storage_refines {V} (vzero : V) (visz : V -> bool) (r : result (cdm V)) (m : result (dmat V)) : Prop :=
+  match r, m with
+  | Ok st, Ok d => storage_ok vzero visz st /\ dm_of_storage vzero st = d
+  | Err a, Err b => a = b
+  | _, _ => False
+  end.
+
+(* what __init__ builds: `if chunk_size:` takes the argument unless it is None or 0, otherwise the length of the chunk
+   (n_chunks, chunk_index) of the enumeration; then current_index 0 and three zero arrays of that length *)
+Definition init_chunk_size (size n_chunks chunk_index : Z) (chunk_size : option Z) : result Z :=
+  match chunk_size with
+  | Some c => if c =? 0 then dor l <- chunk_checked size chunk_index n_chunks; Ok (Z.of_nat (length l)) else Ok c
+  | None => dor l <- chunk_checked size chunk_index n_chunks; Ok (Z.of_nat (length l))
+  end.
+Definition cdm_fresh {V} (vzero : V) (size chunk : Z) : cdm V :=
+  {| c_size := size; c_chunk := chunk; c_cur := 0; c_rows := repeat 0 (Z.to_nat chunk);
+     c_cols := repeat 0 (Z.to_nat chunk); c_vals := repeat vzero (Z.to_nat chunk) |}.
+(* every stored index pair addresses a cell of the size x size matrix (add_value's guards give the upper bounds; the
+   pipeline only stores pairs of the enumeration, which are not negative) *)
+Definition entries_in_range {V} (st : cdm V) : Prop :=
+  forall k, (k < Z.to_nat (c_cur st))%nat ->
+    0 <= nth k (c_rows st) 0 < c_size st /\ 0 <= nth k (c_cols st) 0 < c_size st.
+(* a matrix that holds a value has at least two rows (there is no pair below the diagonal otherwise) *)
+Definition roomy {V} (st : cdm V) : Prop := c_cur st = 0 \/ 2 <= c_size st.
+
+(* ---- save / load: the HDF5 file as the record of its four datasets (each absent until created).  h5py's
+   create_dataset(name, data=a) stores the array a under name, f[name][:] reads it back whole, f[name][0] its first
+   item; a missing dataset is a KeyError (tag 15).  No proofs here. *)
+From Batchie Require Import Lib.PyRt.
+Record h5cdm (V : Type) := {
+  f_rows : option (list Z); f_cols : option (list Z); f_vals : option (list V); f_size : option (list Z) }.
+Arguments f_rows {V}. Arguments f_cols {V}. Arguments f_vals {V}. Arguments f_size {V}.
+Definition h5cdm_new (V : Type) : h5cdm V := {| f_rows := None; f_cols := None; f_vals := None; f_size := None |}.
+Definition set_f_rows {V} (f : h5cdm V) (a : list Z) : h5cdm V :=
+  {| f_rows := Some a; f_cols := f_cols f; f_vals := f_vals f; f_size := f_size f |}.
+Definition set_f_cols {V} (f : h5cdm V) (a : list Z) : h5cdm V :=
+  {| f_rows := f_rows f; f_cols := Some a; f_vals := f_vals f; f_size := f_size f |}.
+Definition set_f_vals {V} (f : h5cdm V) (a : list V) : h5cdm V :=
+  {| f_rows := f_rows f; f_cols := f_cols f; f_vals := Some a; f_size := f_size f |}.
+Definition set_f_size {V} (f : h5cdm V) (a : list Z) : h5cdm V :=
+  {| f_rows := f_rows f; f_cols := f_cols f; f_vals := f_vals f; f_size := Some a |}.
+Definition h5_dataset {A : Type} (o : option A) : result A := match o with Some a => Ok a | None => Err 15 end.
+Definition h5_first (o : option (list Z)) : result Z := dor a <- h5_dataset o; list_get a 0.
+(* the file save writes for a stored object: the used prefixes of the three arrays and the one-item array [size] *)
+Definition file_of_storage {V} (st : cdm V) : h5cdm V :=
+  {| f_rows := Some (np_prefix (c_rows st) (c_cur st)); f_cols := Some (np_prefix (c_cols st) (c_cur st));
+     f_vals := Some (np_prefix (c_vals st) (c_cur st)); f_size := Some [c_size st] |}.
